@@ -403,6 +403,8 @@ func (b *bench) leakedGoroutines() []common.GoroutineInfo {
 	}
 }
 
+func runtimeStackAll(buf []byte) int { return runtime.Stack(buf, true) }
+
 var (
 	stackBufMu sync.Mutex
 	stackBuf   = make([]byte, 128<<10)
@@ -538,6 +540,16 @@ func (b *bench) postMortem() {
 	st := b.snapshot()
 	if !st.ShutdownDone {
 		b.violate("C09/done-not-closed", "Conn.Done() not closed after Close returned", "", b.describe())
+	}
+	// Transport-use monitor (message-level link).
+	if pl, ok := b.lk.(*pipeLink); ok {
+		b.rec.Count("transport_monitor_checks", 1)
+		if n := atomic.LoadInt32(&pl.unreleasedAtClose); n > 0 {
+			b.rec.Count("messages_unreleased_at_transport_close", int64(n))
+		}
+		if ov := pl.overlapSeen(); ov != "" {
+			b.violate(b.prop+"/transport-overlap/"+ov, "the Conn used its transport concurrently: "+ov+" (send() is only allowed under the sender lock; nothing after Close)", "", b.describe())
+		}
 	}
 	// Torn-write monitor.
 	if sl, ok := b.lk.(*streamLink); ok {
